@@ -5,3 +5,4 @@ import Eliot.Properties.C11
 #print axioms EJ.C11.crash_readable
 #print axioms EJ.C11.crash_readable_file
 #print axioms EJ.C11.crash_parse
+#print axioms EJ.C11.crash_parse_flat
